@@ -9,6 +9,7 @@ keys and curves; verdict by construction for genuine chains, independent verifie
 import base64
 import itertools
 import json
+import multiprocessing
 import os
 import re
 from datetime import datetime, timedelta, timezone
@@ -59,6 +60,10 @@ CHAINS = [(d, n) for d in (1, 2, 3) for n in ("wide-top", "narrow-top")]
 FLIP_CHUNKS = 4
 
 
+class _Enough(Exception):
+    """The loader ran out of budget: the case is cut short."""
+
+
 class C07(Check):
     id = "C07"
     level = "exploration"
@@ -98,12 +103,9 @@ class C07(Check):
         self.world = G.V2World("c07")
         self.step = 1
         self._chains = {}
-        self.calib_error = None
-        if not os.environ.get("VERIF_NO_CALIBRATION"):
-            try:
-                self.calibrate()
-            except HarnessError as e:
-                self.calib_error = str(e)
+        self.hangs = multiprocessing.get_context("fork").Value("i", 0)
+        # disagreements on the recorded / documented samples are violations like any other
+        self.pre_violations = self.calibrate()
 
     def chain(self, depth, nest, **kw):
         k = (depth, nest, tuple(sorted((a, repr(b)) for a, b in kw.items())))
@@ -114,7 +116,7 @@ class C07(Check):
         return G.clone(c[0]), c[1], c[2]
 
     # ---- calibration on the recorded real-world certificate --------------------------------
-    def calibrate(self):
+    def calibrate(self, only=None):
         """Recorded real-world certificates: tests/admin/test_certificate_v2_resources.py (its quote
         does not match its custom data: a test fixture) and the sample of docs/attestation.md.  The
         Intel root is not in the repository, so platform_ca acts as root of trust, which leaves the
@@ -125,15 +127,15 @@ class C07(Check):
         m = re.search(r'json\.loads\("""(.*?)"""\)', open(path).read(), re.S)
         if not m:
             raise HarnessError("calibration: recorded version-2 certificate not found")
-        self.calibrate_on("recorded", json.loads(m.group(1)), None)
+        vs = self.calibrate_on("recorded", json.loads(m.group(1)), None, only)
         txt = open(os.path.join(env.REPO, "docs/attestation.md")).read()
         docs = [d for d in map(json.loads, re.findall(r"```json\n(.*?)```", txt, re.S))
                 if d.get("version") == 2]
         if not docs:
             raise HarnessError("calibration: version-2 sample not found in docs/attestation.md")
-        self.calibrate_on("documented", docs[0], R.OK)
+        return vs + self.calibrate_on("documented", docs[0], R.OK, only)
 
-    def calibrate_on(self, what, rec, presume):
+    def calibrate_on(self, what, rec, presume, only=None):
         els = {e["name"]: e for e in rec["elements"]}
         qe = dict(els["quoting_enclave"], signed_by=G.V2_ROOT)
         base = {"version": 2, "targets": ["quote"], "elements": [els["quote"], els["attestation"], qe]}
@@ -166,15 +168,28 @@ class C07(Check):
         probes.append(("qe-early", base, datetime(2024, 3, 22, tzinfo=timezone.utc)))
         # quote <- attestation alone: quote re-parented onto the certificate must fail at the quote
         probes.append(("quote-under-qe", mut("quote", "signed_by", lambda s: "quoting_enclave"), inside))
+        # clock at the boundaries of the recorded leaf certificate's validity period
+        qv = R.X509View(base64.b64decode(els["quoting_enclave"]["message"]))
+        for lab, now in (("qe-nb-1s", qv.not_before - SEC), ("qe-nb", qv.not_before),
+                         ("qe-na", qv.not_after), ("qe-na+1s", qv.not_after + SEC)):
+            probes.append((lab, base, now))
+        vs = []
         for label, doc, now in probes:
+            if only is not None and only != (what, label):
+                continue
             exp = R.v2_validate(doc, root_element(root_pem), now)["quote"]
             if label == "intact" and presume is not None and exp[0] != presume:
                 raise HarnessError("calibration %s/%s: reference verifier says %r"
                                    % (what, label, exp[:2]))
+            if exp[0] == R.OPEN:
+                raise HarnessError("calibration %s/%s: reference verifier leaves the verdict open" % (what, label))
             got = self.impl.run_v2(doc, root_pem, now)
-            if exp[0] == R.OPEN or got[0] != "result" or self.mismatch(doc, {"quote": exp}, got[1]):
-                raise HarnessError("calibration %s/%s: implementation %r vs reference %r"
-                                   % (what, label, got, exp[:2]))
+            if got[0] != "result" or self.mismatch(doc, {"quote": exp}, got[1]):
+                vs.append(Violation("C07", "C07:calibration:%s:%s" % (what, label),
+                                    {"kind": "calibration", "sample": what, "probe": label}, None,
+                                    {"outcome": got[0], "result": repr(got[1])},
+                                    {"verdict": exp[:2] if exp[0] != R.OK else "ok"}, "recorded sample"))
+        return vs
 
     # ---------------------------------------------------------------------------------
     def bounds(self):
@@ -199,8 +214,6 @@ class C07(Check):
         return [(2, "wide-top"), (3, "narrow-top")]
 
     def cases(self):
-        if self.calib_error:
-            return [{"kind": "calibration", "error": self.calib_error}]
         cs = []
         for d, n in self.flip_chains():
             doc, _, _ = self.chain(d, n)
@@ -242,12 +255,21 @@ class C07(Check):
         vs = []
         k = case["kind"]
         if k == "calibration":
-            raise HarnessError(case["error"])
-        if k == "one":
-            self.evaluate(case["doc"], case["root_pem"], from_iso(case["now"]), case.get("label", "replay"),
-                          stats, vs, open_=case.get("open", False))
+            return self.calibrate(only=(case["sample"], case["probe"]))
+        if self.hangs.value >= 4:
+            stats.bump("capped")       # a loader that does not return was reported: stop early
             return vs
-        getattr(self, "run_" + k.replace("-", "_"))(case, stats, vs)
+        if k == "one":
+            try:
+                self.evaluate(case["doc"], case["root_pem"], from_iso(case["now"]), case.get("label", "replay"),
+                              stats, vs, open_=case.get("open", False), target=case.get("target", "quote"))
+            except _Enough:
+                pass
+            return vs
+        try:
+            getattr(self, "run_" + k.replace("-", "_"))(case, stats, vs)
+        except _Enough:
+            stats.bump("capped")
         return vs
 
     def genuine(self, doc, root_pem, now, label, stats, vs):
@@ -488,6 +510,18 @@ class C07(Check):
             d["elements"].append(w.quote_element("quote2", "quote", "attkey"))
             d["targets"] = ["quote2"]
             self.evaluate(d, root_pem, G.T0, "kinds:quote-under-quote", stats, vs, target="quote2")
+            # attestation key certified by a quote (which has no key to certify with)
+            d = G.clone(doc)
+            d["elements"].append(w.att_element("attestation2", "quote", "stranger", key_name="attkey2"))
+            d["elements"].append(w.quote_element("quote2", "attestation2", "attkey2"))
+            d["targets"] = ["quote2"]
+            self.evaluate(d, root_pem, G.T0, "kinds:attkey-under-quote", stats, vs, target="quote2")
+            # quote certified directly by a leaf certificate that holds no P-256 key (really signed by it)
+            for curve in ("p384", "k1"):
+                d2, rp2, m2 = self.chain(depth, "wide-top", curves=["p256"] * (depth - 1) + [curve])
+                leaf2 = m2["x509"][-1][0]
+                d2["elements"][0] = w.quote_element("quote", leaf2, leaf2, signer_curve=curve)
+                self.evaluate(d2, rp2, G.T0, "kinds:quote-under-nonp256-x509", stats, vs)
             # attestation key directly under the root of trust
             d = G.clone(doc)
             d["elements"] = [d["elements"][0], w.att_element("attestation", G.V2_ROOT, "root")]
@@ -599,12 +633,16 @@ class C07(Check):
     def evaluate(self, doc, root_pem, now, label, stats, vs, open_=False, target="quote"):
         stats.evaluations += 1
         case = {"kind": "one", "doc": doc, "root_pem": root_pem, "now": iso(now), "label": label,
-                "open": open_}
+                "open": open_, "target": target}
         reason = v2_structure(doc)
-        try:
-            got = self.impl.run_v2(doc, root_pem, now)
-        except Exception as e:   # noqa
-            got = ("raise", e)
+        got = self.impl.run_v2(doc, root_pem, now, guarded=reason is not None)
+        if got[0] == "budget":
+            with self.hangs.get_lock():
+                self.hangs.value += 1
+            stats.observe(("budget", reason))
+            vs.append(Violation("C07", "C07:load-does-not-return:%s" % reason, case, None,
+                                {"budget": got[1]}, {"error": reason}, "structure"))
+            raise _Enough()
         if reason is not None:
             stats.observe((label, "structure", reason, got[0]))
             if got[0] != "loaderr":
@@ -621,6 +659,12 @@ class C07(Check):
             stats.dont_care += 1
             return exp
         short = label.split(":")[0] + ":" + label.split(":")[1] if ":" in label else label
+        if got[0] == "raise":
+            cls, frame = self.impl.where(got[1])
+            vs.append(Violation("C07", "C07:validate-raises:%s:%s:%s" % (type(got[1]).__name__, cls, frame),
+                                case, None, {"raised": repr(got[1])}, {"verdict": ev[:2]},
+                                "validation gives a verdict"))
+            return exp
         if got[0] != "result":
             vs.append(Violation("C07", "C07:%s:%s" % ("refused" if got[0] == "loaderr" else "raised", short),
                                 case, None, {"outcome": got[0], "error": repr(got[1])},
